@@ -102,6 +102,8 @@ def run(ctx, rep):
     rep.check(any('valid_size' in c and 'offset' in c for c in rc), 'R-C17-2', 'parity_read refuses offsets beyond valid_size', r.file, '', function='parity_read', construct='valid_size check')
 
     valid_size_rules(P, rep, 'R-C17-2v')
+    parity_read_valid_rule(P, rep, 'R-C17-2r')
+    create_accepts_damaged_size_rule(P, rep, 'R-C17-2c')
     chsize_domain_rule(P, rep, 'R-C17-3d', ctx.tier)
     grow_rule(P, rep, 'R-C17-5')
     offset_width_rule(P, rep, 'R-C17-1w')
@@ -472,3 +474,105 @@ def split_index_guard_rule(P, rep, rid, fname='state_read_content'):
                   function=fname, construct='split_map index guard')
     if n == 0:
         raise AnalysisBroken('%s: no variable split_map[] access found' % fname)
+
+
+def parity_read_valid_rule(P, rep, rid):
+    """parity_read interpreted over an exhaustive small domain (one split of 4 blocks of 4 bytes, every valid_size 0..16, every
+    position 0..4, the file itself long enough -- it was grown again by fix): the read succeeds only for a block that lies completely
+    inside the valid range.  A block that straddles valid_size (parity file cut inside a block) must be refused, so that fix
+    recomputes and rewrites it; otherwise the regrown zeros can match, nothing is written, valid_size stays at the cut and
+    parity_truncate() cuts the file again (finding F12)."""
+    from .. import region as RG
+    f = P.fn('parity_read')
+    rep.analysed(f)
+    rep.rule(rid, 'parity_read over valid_size 0..16 x position 0..4 (block 4): success <=> the block lies completely inside [0, valid_size); no pread otherwise', 1)
+    dh = P.distructs.get('snapraid_parity_handle'); dsp = P.distructs.get('snapraid_split_handle')
+    if not (dh and dsp):
+        raise AnalysisBroken('parity layouts not found')
+    def off(d, name):
+        return [m for m in d['members'] if m['name'] == name][0]['off']
+    H_MAC, H_MAP = off(dh, 'split_mac'), off(dh, 'split_map')
+    S_SIZE, S_VALID, S_F = off(dsp, 'size'), off(dsp, 'valid_size'), off(dsp, 'f')
+    BS = 4
+    bad = None; n = 0
+    for valid in range(0, 17):
+        for pos in range(0, 5):
+            preads = []
+            def ext(ins, args):
+                cal = ins.callee
+                if cal is None:
+                    return (0,)          # the error printer passed as a function pointer
+                if cal == 'pread':
+                    preads.append((RG.signed(args[3], 64), args[2]))
+                    return (args[2],)
+                if cal in ('bw_limit', 'advise_read', 'strerror', '__errno_location', 'log_fatal', 'log_tag', 'log_error'):
+                    return (0,) if cal != '__errno_location' else (R.array('errno', [0], 4),)
+                return None
+            R = RG.Region(P, extern=ext)
+            hp = RG.P_(('obj', 'handle'), 0); R.zero_regions.add(hp.reg)
+            R.mem[(hp.reg, H_MAC)] = 1
+            R.mem[(hp.reg, H_MAP + S_SIZE)] = 16
+            R.mem[(hp.reg, H_MAP + S_VALID)] = valid
+            R.mem[(hp.reg, H_MAP + S_F)] = 3
+            buf = R.array('buffer', [0] * BS, 1)
+            try:
+                rv = R.run(f, 0, [hp, pos, buf, BS, RG.P_(('fn', 'out'), 0)])
+            except RG.Unsupported as e:
+                raise AnalysisBroken('cannot interpret parity_read: %s' % e)
+            n += 1
+            rv = RG.signed(rv & 0xffffffff, 32)
+            inside = pos * BS + BS <= valid
+            okk = (rv == BS and preads and preads[0][0] == pos * BS) if inside else (rv == -1 and not preads)
+            if not okk and bad is None:
+                bad = 'valid_size %d, position %d (bytes %d..%d): parity_read returns %d after %s -- %s' % (valid, pos, pos * BS, pos * BS + BS - 1, rv, 'pread at %s' % [p_[0] for p_ in preads] if preads else 'no pread',
+                      'a block inside the valid range is refused' if inside else 'a block that is not completely inside the valid range is accepted: after a parity file was cut inside a block and regrown by fix, the zero-filled part can match, the block is not rewritten, and parity_truncate() cuts the file again')
+    rep.check(bad is None, rid, 'parity_read accepts exactly the blocks completely inside the valid range', f.file, '%d evaluations' % n if bad is None else bad, function='parity_read', construct='valid range test')
+
+
+def create_accepts_damaged_size_rule(P, rep, rid):
+    """fix opens the parity files with parity_create().  A parity file that lost its tail can have any size; when the content file
+    does not record the split sizes (a single parity file: the usual configuration) the size on disk is all there is.  parity_create
+    must therefore not fail because of that size alone -- else fix stops with "Without an accessible Parity file" and a parity file
+    cut inside a block can never be repaired (finding F13).  Rule: no branch of parity_create whose condition is computed only from
+    the size of the existing file (split->size / st.st_size), the block size and constants has a side that cannot reach success."""
+    f = P.fn('parity_create')
+    rep.analysed(f)
+    rep.rule(rid, 'parity_create: no failing exit is decided by the on-disk size of an existing parity file alone', 1)
+    succ_st = [i for i in f.all_insts() if i.op == 'store' and f.expr(i.ops[1]) == '&retval' and f.const_of(i.ops[0]) == 0]
+    rets = succ_st or []
+    if not rets:
+        # single return value local: take the returns and find the constant-0 definitions that reach them
+        raise AnalysisBroken('parity_create: success return not recognised')
+    can_succeed = set()
+    # blocks from which a success store is reachable
+    for b in range(len(f.blocks)):
+        r = f.reach([f.blocks[b][0]], include_start=True)
+        if any(s.id in r for s in succ_st):
+            can_succeed.add(b)
+    nbr = 0; bad = None
+    for b in range(len(f.blocks)):
+        t = f.term(b)
+        if t.op != 'br' or len(t.ops) != 3 or b not in can_succeed:
+            continue
+        failing = [s for s in t.succ if s not in can_succeed]
+        if not failing:
+            continue
+        nbr += 1
+        src = f.value_sources(t.ops[0])
+        kinds = set()
+        for x in src:
+            if x[0] == 'const':
+                continue
+            if x[0] == 'arg':
+                kinds.add('arg:%s' % ((f.args[x[1]].get('name') if x[1] < len(f.args) else None) or x[1]))
+            elif x[0] == 'mem' and (x[1].endswith('->size') or x[1].endswith('st.st_size') or x[1].endswith('.st_size')):
+                kinds.add('size')
+            else:
+                kinds.add('other')
+        if 'size' in kinds and 'other' not in kinds and bad is None:
+            bad = (t, sorted(str(x) for x in src))
+    if nbr == 0:
+        raise AnalysisBroken('parity_create: no failing branch found')
+    rep.check(bad is None, rid, 'parity_create does not refuse a parity file for its size', bad[0].loc() if bad else f.file,
+              '%d failing branches examined, none decided by the file size alone' % nbr if bad is None else 'the failing branch at line %s depends only on %s: a parity file whose size is not a multiple of the block size (cut inside a block) makes fix stop with "Without an accessible Parity file", the lost parity is never rebuilt' % (bad[0].line, bad[1]),
+              function='parity_create', construct='size-only refusal')
